@@ -465,44 +465,42 @@ theorem execEngineStmt_param (e : Env) (s : Stmt) : (execEngineStmt e s).param =
   cases s <;> simp [execEngineStmt]
 
 /-- Soundness of the abstract check `freshOK`: at the call named `phase` the parameter is still the tick's time,
-    the field has been assigned from it (unless the call is structural), a handed-down time argument evaluates to
+    the field has been assigned from it (if the call may reach a tag), a handed-down time argument evaluates to
     it, and the check holds for the remaining statements (so phases chain). -/
 theorem advance_fresh (phase : String) (t : Time) :
     ∀ (stmts : List Stmt) (e : Env) (f : Bool), freshOK f stmts = true → e.param = t →
       (f = true → e.engineField = t) →
-      ∀ e' a rest, advance phase stmts e = some (e', a, rest) →
+      ∀ e' a r p rest, advance phase stmts e = some (e', a, r, p, rest) →
         e'.param = t ∧ e'.wall = e.wall ∧ e'.interpField = e.interpField ∧
-        (structuralCall phase = false → e'.engineField = t) ∧
-        (timeCallee phase = true → ∃ x, a = some x ∧ evalArg e' 0 0 x = t) ∧
+        (r = true → e'.engineField = t) ∧
+        (p = true → ∃ x, a = some x ∧ evalArg e' 0 0 x = t) ∧
         ∃ f', freshOK f' rest = true ∧ (f' = true → e'.engineField = t) := by
   intro stmts
   induction stmts with
-  | nil => intro e f _ _ _ e' a rest h; simp [advance] at h
+  | nil => intro e f _ _ _ e' a r p rest h; simp [advance] at h
   | cons s rest ih =>
-    intro e f hok hp hf e' a rest' h
+    intro e f hok hp hf e' a r p rest' h
     cases s with
-    | call n a0 =>
+    | call n a0 r0 p0 =>
       simp only [freshOK, Bool.and_eq_true, Bool.or_eq_true] at hok
       obtain ⟨⟨h1, h2⟩, h3⟩ := hok
       simp only [advance] at h
       split at h
-      · rename_i hn
-        simp only [Option.some.injEq, Prod.mk.injEq] at h
-        obtain ⟨rfl, rfl, rfl⟩ := h
-        subst hn
+      · simp only [Option.some.injEq, Prod.mk.injEq] at h
+        obtain ⟨rfl, rfl, rfl, rfl, rfl⟩ := h
         refine ⟨hp, rfl, rfl, ?_, ?_, f, h3, hf⟩
         · intro hs
           rcases h1 with h1 | h1
-          · rw [hs] at h1; cases h1
+          · simp [hs] at h1
           · exact hf h1
         · intro ht
           rcases h2 with (h2 | h2) | h2
           · simp [ht] at h2
           · simp only [decide_eq_true_eq] at h2
             exact ⟨.param, h2, by simpa [evalArg] using hp⟩
-          · simp only [decide_eq_true_eq] at h2
+          · simp only [Bool.and_eq_true, decide_eq_true_eq] at h2
             exact ⟨.engineField, h2.1, by simpa [evalArg] using hf h2.2⟩
-      · exact ih e f h3 hp hf e' a rest' h
+      · exact ih e f h3 hp hf e' a r p rest' h
     | assign tgt rhs =>
       simp only [freshOK] at hok
       simp only [advance] at h
@@ -512,42 +510,58 @@ theorem advance_fresh (phase : String) (t : Time) :
           intro hd
           simp only [decide_eq_true_eq] at hd
           subst hd
-          simpa [execEngineStmt, evalArg] using hp) e' a rest' h
+          simpa [execEngineStmt, evalArg] using hp) e' a r p rest' h
       simpa [execEngineStmt] using this
     | stamp rhs =>
       simp only [freshOK, Bool.and_eq_true] at hok
       simp only [advance] at h
       have := ih (execEngineStmt e (.stamp rhs)) f hok.2 (by simpa [execEngineStmt] using hp)
-        (by simpa [execEngineStmt] using hf) e' a rest' h
+        (by simpa [execEngineStmt] using hf) e' a r p rest' h
       simpa [execEngineStmt] using this
 
-/-- any number of successive non-structural phases: parameter and field are the tick's time at the last one -/
-theorem advanceMany_fresh (t : Time) :
+/-- what `advanceMany` does on a non-empty list of phases -/
+theorem advanceMany_cons (p : String) (ps : List String) (stmts : List Stmt) (e : Env) (e' : Env)
+    (rest : List Stmt) (h : advanceMany (p :: ps) stmts e = some (e', rest)) :
+    ∃ e1 a pf rest1, advance p stmts e = some (e1, a, true, pf, rest1) ∧ advanceMany ps rest1 e1 = some (e', rest) := by
+  simp only [advanceMany] at h
+  split at h
+  · rename_i e1 a pf rest1 heq
+    exact ⟨e1, a, pf, rest1, heq, h⟩
+  · cases h
+
+/-- any number of successive phases: what `freshOK` guarantees is carried along -/
+theorem advanceMany_carry (t : Time) :
     ∀ (phases : List String) (stmts : List Stmt) (e : Env) (f : Bool), freshOK f stmts = true → e.param = t →
-      (f = true → e.engineField = t) → (∀ p ∈ phases, structuralCall p = false) → phases ≠ [] →
+      (f = true → e.engineField = t) →
       ∀ e' rest, advanceMany phases stmts e = some (e', rest) →
-        e'.param = t ∧ e'.engineField = t ∧ e'.wall = e.wall := by
+        e'.param = t ∧ e'.wall = e.wall ∧ (phases ≠ [] → e'.engineField = t) ∧
+        ∃ f', freshOK f' rest = true ∧ (f' = true → e'.engineField = t) := by
   intro phases
   induction phases with
-  | nil => intro _ _ _ _ _ _ _ h; exact absurd rfl h
+  | nil =>
+    intro stmts e f hok hp hf e' rest h
+    simp only [advanceMany, Option.some.injEq, Prod.mk.injEq] at h
+    obtain ⟨rfl, rfl⟩ := h
+    exact ⟨hp, rfl, fun h => absurd rfl h, f, hok, hf⟩
   | cons p ps ih =>
-    intro stmts e f hok hp hf hs _ e' rest h
-    simp only [advanceMany] at h
-    cases ha : advance p stmts e with
-    | none => simp [ha] at h
-    | some r =>
-      obtain ⟨e1, a, rest1⟩ := r
-      simp only [ha] at h
-      obtain ⟨h1, h2, _, h4, _, f', h6, h7⟩ := advance_fresh p t stmts e f hok hp hf e1 a rest1 ha
-      have he1 := h4 (hs p List.mem_cons_self)
-      cases ps with
-      | nil =>
-        simp only [advanceMany, Option.some.injEq, Prod.mk.injEq] at h
-        obtain ⟨rfl, rfl⟩ := h
-        exact ⟨h1, he1, h2⟩
-      | cons q qs =>
-        have := ih rest1 e1 f' h6 h1 h7 (fun x hx => hs x (List.mem_cons_of_mem _ hx)) (by simp) e' rest h
-        exact ⟨this.1, this.2.1, this.2.2.trans h2⟩
+    intro stmts e f hok hp hf e' rest h
+    obtain ⟨e1, a, pf, rest1, ha, hm⟩ := advanceMany_cons p ps stmts e e' rest h
+    obtain ⟨h1, h2, _, h4, _, f', h6, h7⟩ := advance_fresh p t stmts e f hok hp hf e1 a true pf rest1 ha
+    obtain ⟨q1, q2, q3, q4⟩ := ih rest1 e1 f' h6 h1 h7 e' rest hm
+    refine ⟨q1, q2.trans h2, fun _ => ?_, q4⟩
+    cases ps with
+    | nil =>
+      simp only [advanceMany, Option.some.injEq, Prod.mk.injEq] at hm
+      obtain ⟨rfl, rfl⟩ := hm
+      exact h4 rfl
+    | cons q qs => exact q3 (by simp)
+
+theorem advanceMany_fresh (t : Time) (phases : List String) (stmts : List Stmt) (e : Env) (f : Bool)
+    (hok : freshOK f stmts = true) (hp : e.param = t) (hf : f = true → e.engineField = t) (hne : phases ≠ [])
+    (e' : Env) (rest : List Stmt) (h : advanceMany phases stmts e = some (e', rest)) :
+    e'.param = t ∧ e'.engineField = t ∧ e'.wall = e.wall := by
+  obtain ⟨h1, h2, h3, _⟩ := advanceMany_carry t phases stmts e f hok hp hf e' rest h
+  exact ⟨h1, h3 hne, h2⟩
 
 /-- the bulk stamp of the first tick evaluates to the tick's time -/
 theorem advanceStamp_fresh (t : Time) :
@@ -560,10 +574,10 @@ theorem advanceStamp_fresh (t : Time) :
   | cons s rest ih =>
     intro e f hok hp hf e' rhs rest' h
     cases s with
-    | call n a0 =>
+    | call n a0 r0 p0 =>
       simp only [freshOK, Bool.and_eq_true] at hok
       simp only [advanceStamp] at h
-      exact ih (execEngineStmt e (.call n a0)) f hok.2 (by simpa [execEngineStmt] using hp)
+      exact ih (execEngineStmt e (.call n a0 r0 p0)) f hok.2 (by simpa [execEngineStmt] using hp)
         (by simpa [execEngineStmt] using hf) e' rhs rest' h
     | assign tgt r =>
       simp only [freshOK] at hok
@@ -607,7 +621,7 @@ theorem enterInterp_fresh (stmts : List Stmt) (h : interpOK stmts = true) (e : E
         have := ih (execInterpStmt arg e' (.assign tgt .param)) hall.2 (by simp [execInterpStmt, evalArg])
         simpa [execInterpStmt] using this
       | stamp r => simpa [execInterpStmt] using ih e' hall.2 h'
-      | call n a => simpa [execInterpStmt] using ih e' hall.2 h'
+      | call n a r p => simpa [execInterpStmt] using ih e' hall.2 h'
   match stmts, h with
   | .assign tgt .param :: rest, h =>
     simp only [interpOK] at h
